@@ -235,14 +235,79 @@ def install_to_mask_monitor(obs, judges):
         def to_mask(self, *a, **k):
             result = orig(self, *a, **k)
             names = ('mode', 'subpixels')
-            kw = dict(zip(names, a))
+            kw = dict(defaults)
+            kw.update(zip(names, a))
             kw.update(k)
             for j in judges:
                 _harness_guard(obs, j, obs, self, kw.get('mode', 'center'), kw.get('subpixels', None), result)
             return result
+        import inspect
+        defaults = {n: p.default for n, p in inspect.signature(orig).parameters.items()
+                    if n in ('mode', 'subpixels') and p.default is not inspect.Parameter.empty}
         return to_mask
     import regions.shapes.annulus as ann
     n = 0
     for cls in pixel_classes() + [ann.AnnulusPixelRegion]:
         n += wrap_method(cls, 'to_mask', make)
     obs.count('monitors_installed:to_mask', n)
+
+
+# ---------------------------------------------------------------------------
+# C02: centre / subpixel masks are the sampled membership function
+def sampled_oracle(region, bbox, n):
+    """(n_in, n_amb) integer arrays of shape bbox.shape: number of the n x n
+    sub-sample centres that are members / undecided (inside the band)."""
+    ny, nx = bbox.shape
+    k = (np.arange(n) + 0.5) / n
+    xs = (np.arange(bbox.ixmin, bbox.ixmax)[:, None] - 0.5 + k[None, :]).ravel()      # nx*n
+    ys = (np.arange(bbox.iymin, bbox.iymax)[:, None] - 0.5 + k[None, :]).ravel()      # ny*n
+    X, Y = np.meshgrid(xs, ys)
+    ins, dec = geom.shape_member(region, X, Y)
+    ins = np.asarray(ins).reshape(ny, n, nx, n)
+    dec = np.asarray(dec).reshape(ny, n, nx, n)
+    n_in = (ins & dec).sum(axis=(1, 3))
+    n_amb = (~dec).sum(axis=(1, 3))
+    return n_in, n_amb
+
+
+def judge_mask_sampled(obs, region, mode, subpixels, mask, max_points=4_000_000):
+    cname = type(region).__name__
+    if mode not in ('center', 'subpixels'):
+        return
+    n = 1 if mode == 'center' else subpixels
+    if not isinstance(n, int) or n <= 0:
+        return
+    obs.count(f'monitor:to_mask:{cname}:{mode}')
+    data = np.asarray(mask.data)
+    bbox = mask.bbox
+    ny, nx = bbox.shape
+    if data.shape != (ny, nx):
+        obs.violation('mask-shape-differs', f'{cname}: data shape {data.shape} vs box shape {(ny, nx)}')
+        return
+    if nx * ny * n * n > max_points or nx * ny == 0:
+        obs.count('mask_too_large_not_judged')
+        return
+    n_in, n_amb = sampled_oracle(region, bbox, n)
+    kk = data * (n * n)
+    integral = np.abs(kk - np.round(kk)) <= 1e-9 * max(1, n * n)
+    if not integral.all():
+        j, i = np.argwhere(~integral)[0]
+        obs.violation('mask-value-not-a-sample-fraction', f'{cname} {mode} n={n}: value {data[j, i]!r} at [{j},{i}] is not a multiple of 1/n^2',
+                      region=repr(region)[:300])
+        return
+    kr = np.round(kk)
+    bad = (kr < n_in) | (kr > n_in + n_amb)
+    judged = int((n_amb == 0).sum())
+    obs.skip(int((n_amb > 0).sum()), 'mask-pixels')
+    if mode == 'center':
+        only01 = np.isin(data, (0, 1)).all()
+        obs.check(bool(only01), 'center-mask-not-binary', f'{cname}: centre mask holds values other than 0 and 1', 'mask-binary')
+    if bad.any():
+        j, i = np.argwhere(bad)[0]
+        obs.violation('mask-differs-from-sampled-membership:' + cname,
+                      f'{cname} {mode} n={n}: pixel [{j},{i}] = ({bbox.ixmin + i}, {bbox.iymin + j}) has value {data[j, i]!r} '
+                      f'(= {kr[j, i]:.0f}/{n * n}) but {n_in[j, i]}..{n_in[j, i] + n_amb[j, i]} of the sample centres are members; '
+                      f'{int(bad.sum())} of {nx * ny} pixels wrong', region=repr(region)[:400])
+        obs.ok(max(0, judged - 1), 'mask-pixels')
+    else:
+        obs.ok(judged, 'mask-pixels')
